@@ -356,6 +356,8 @@ def run(ctx):
     for fi, c, f in temp_sites(ctx):
         if not fi.module.name.startswith("pyxform.validators.updater"):
             check_temp_pairing(r5, fi, c, f)
+    from .c18 import validated_file_obligations
+    validated_file_obligations(ctx, r5, "C14.R5")
     rules.append(r5)
 
     # ------------------------------------------------------------------ R6
